@@ -309,15 +309,22 @@ class _RecordingConfiguration:
         self.real = real
         self.calls: list = []
 
+    # The verdict stops at the parsed Route handed over with the selected peers.  Whether a given neighbor
+    # can carry it (e.g. `next-hop self` for an IPv6 prefix on an IPv4 session) is a property of the
+    # deployment, not of the command text: the real RIB call is made and its outcome only recorded.
+    def _real(self, name, peers, route):
+        try:
+            return bool(getattr(self.real, name)(peers, route))
+        except Exception as e:  # noqa
+            return f'{type(e).__name__}: {e}'
+
     def announce_route(self, peers, route):
-        accepted = self.real.announce_route(peers, route)
-        self.calls.append(('announce', list(peers), route, accepted))
-        return accepted
+        self.calls.append(('announce', list(peers), route, self._real('announce_route', peers, route)))
+        return True
 
     def withdraw_route(self, peers, route):
-        accepted = self.real.withdraw_route(peers, route)
-        self.calls.append(('withdraw', list(peers), route, accepted))
-        return accepted
+        self.calls.append(('withdraw', list(peers), route, self._real('withdraw_route', peers, route)))
+        return True
 
 
 class _Reactor:
@@ -373,7 +380,7 @@ class Daemon:
         errors = [m for k, m in answers if k == 'error']
         try:
             for action, peers, route, accepted in r.configuration.calls:
-                res['calls'].append({'action': action, 'peers': sorted(p.split()[1] for p in peers), 'accepted': bool(accepted), **summarise(route)})
+                res['calls'].append({'action': action, 'peers': sorted(p.split()[1] for p in peers), 'rib': accepted, **summarise(route)})
         except Exception as e:  # noqa
             res['error'] = f'parsed route unreadable: {type(e).__name__}: {e}'
             self.cache[key] = res
@@ -382,8 +389,8 @@ class Daemon:
             res['error'] = 'refused: ' + ('; '.join(errors) or f'process() returned {ret!r}, answers {answers!r}')
         elif len(res['calls']) != 1:
             res['error'] = f'{len(res["calls"])} routes reached the RIB interface'
-        elif not res['calls'][0]['accepted']:
-            res['error'] = 'no neighbor accepted the route (family not configured / no peer selected)'
+        elif not res['calls'][0]['peers']:
+            res['error'] = 'no peer selected'
         else:
             res['ok'] = True
         self.cache[key] = res
